@@ -63,7 +63,9 @@ def _classes():
 
 
 def make(cls, n, scripts, tol, before_fault=None, after_fault=None):
-    m = cls(range(2000, 2000 + n), tol=tol, X=1.0, before_fault=before_fault, after_fault=after_fault)
+    # years, or text labels one of which stands twice (periods are then only told apart by position - which is all tracing needs)
+    span = range(2000, 2000 + n) if not DUP['on'] else [f'p{i}' if i != 2 else 'p1' for i in range(n)]
+    m = cls(span, tol=tol, X=1.0, before_fault=before_fault, after_fault=after_fault)
     m.__dict__['v_scripts_by_t'] = {k: list(v) for k, v in scripts.items()}
     for i in range(n):
         m.A[i] = 0.25 * i
@@ -75,6 +77,7 @@ def make(cls, n, scripts, tol, before_fault=None, after_fault=None):
     return m
 
 
+DUP = {'on': False}        # whether the span repeats a label (set per case)
 TOUCH = {'on': False}      # whether the scripted passes also move the exogenous X (set per case)
 EXTRA = {'AB': lambda t: 0.125 * t + 7.0, 'Xtra': lambda t: -3.0 - t}
 
@@ -106,6 +109,7 @@ def trace_image(m):
 def full_check(ctx, cls, n, scripts, opts, spec, entry, arg, tol, faults, case, repeat=1):
     """Traced vs untraced twin + exact expected trace (labels and values)."""
     TOUCH['on'] = bool(case.get('touch_exog'))
+    DUP['on'] = bool(case.get('dup_labels')) and entry == 'solve_t'      # (solve() and solve_period() go by label: first occurrence)
     A = make(cls, n, scripts, tol, *faults)
     # the untraced twin: the same tracer-extended class called without trace=..., or (every other case) the plain
     # model class without the mixin - tracing support must be transparent either way
@@ -272,7 +276,7 @@ def run_shard(ctx):
             faults = (None, rng.choice(['exc', 'warn']))
         repeat = 2 if rng.random() < 0.3 else 1
         interlude = rng.choice(['none', 'list-assign', 'copy', 'copy-then-list-assign'])
-        case = dict(n=n, cls=cls.__name__, trace=spec, entry=entry, arg=arg, arg_numpy=(entry == 'solve_t' and rng.random() < 0.3), touch_exog=rng.random() < 0.3, opts=opts, faults=list(faults), repeat=repeat, interlude=interlude, twin=rng.choice(['same', 'plain']),
+        case = dict(n=n, cls=cls.__name__, trace=spec, entry=entry, arg=arg, arg_numpy=(entry == 'solve_t' and rng.random() < 0.3), touch_exog=rng.random() < 0.3, dup_labels=rng.random() < 0.2, opts=opts, faults=list(faults), repeat=repeat, interlude=interlude, twin=rng.choice(['same', 'plain']),
                     scripts={str(k): v for k, v in scripts.items()})
         ctx.evaluation(case, nontrivial=True, sample=case)
         ctx.seen('trace_specs', repr(spec))
